@@ -688,7 +688,12 @@ where
         }
         VectorDiff::Truncate { length: new_length } => {
             // Keep values where their `unsorted_index` is lower than the `new_length`.
-            buffered_vector.retain(|(unsorted_index, _)| *unsorted_index < new_length);
+            // (Not `Vector::retain`: as of imbl 5.0 it misplaces items in vectors of
+            // more than 64 items whose first chunk doesn't start at its first slot.)
+            *buffered_vector = std::mem::take(buffered_vector)
+                .into_iter()
+                .filter(|(unsorted_index, _)| *unsorted_index < new_length)
+                .collect();
             result.push(VectorDiff::Truncate { length: new_length });
         }
         VectorDiff::Reset { values: new_values } => {
